@@ -32,6 +32,7 @@ type Obligation struct {
 	smtFile string
 	smtSize int
 	Known   *KnownFinding
+	Preset  string // "fail": decided by the generator itself (syntactic frame check), with Model as the reason
 }
 
 type edge struct {
@@ -52,6 +53,7 @@ type loopInfo struct {
 	ordinal int
 	spec    *LoopSpec
 	head    *State // state after havoc, for decreases
+	pre     *State // state when the loop was reached (before havoc), for entry(...)
 	minPos  token.Pos
 }
 
@@ -101,11 +103,20 @@ type fnExec struct {
 	tablesUsed    map[string]bool
 	replayParams  []*replayParam
 	replayTerms   []string
+	sliceTables   map[ssa.Value]*sliceTable
+	refHeaps      map[string]bool
+	havocked      []string
 }
 
 func (fx *fnExec) declare(name, sort string) {
 	if fx.declared[name] {
 		return
+	}
+	if strings.Contains(sort, "Str") && !fx.declared["$Str"] {
+		fx.needStr()
+	}
+	if strings.Contains(sort, "Flt") && !fx.declared["$Flt"] {
+		fx.needFlt()
 	}
 	fx.declared[name] = true
 	fx.decls = append(fx.decls, fmt.Sprintf("(declare-fun %s () %s)", name, sort))
@@ -113,6 +124,13 @@ func (fx *fnExec) declare(name, sort string) {
 func (fx *fnExec) declareFun(name string, args []string, ret string) {
 	if fx.declared[name] {
 		return
+	}
+	all := strings.Join(args, " ") + " " + ret
+	if strings.Contains(all, "Str") && !fx.declared["$Str"] {
+		fx.rawDecl("$Str", "(declare-sort Str 0)")
+	}
+	if strings.Contains(all, "Flt") && !fx.declared["$Flt"] {
+		fx.rawDecl("$Flt", "(declare-sort Flt 0)")
 	}
 	fx.declared[name] = true
 	fx.decls = append(fx.decls, fmt.Sprintf("(declare-fun %s (%s) %s)", name, strings.Join(args, " "), ret))
@@ -457,6 +475,9 @@ func (fx *fnExec) loadIn(st *State, ad Ad, facts bool) SV {
 	}
 	pre := ad.Heap + pathSuffix(hp)
 	v := fx.build(typ, func(l leaf) Term {
+		if isRefLeaf(l) {
+			fx.refHeaps[pre+l.suffix] = true
+		}
 		h := fx.heap(st, pre+l.suffix, fx.heapSortFor(ad.Heap, l))
 		t := h
 		for _, ix := range ad.Idx {
@@ -506,6 +527,9 @@ func (fx *fnExec) store(ad Ad, v SV) {
 	fl := flatten(v)
 	for i, l := range fx.leaves(typ) {
 		name := pre + l.suffix
+		if isRefLeaf(l) {
+			fx.refHeaps[name] = true
+		}
 		h := fx.heap(fx.st, name, fx.heapSortFor(ad.Heap, l))
 		var nh Term
 		if len(ad.Idx) == 1 {
@@ -883,11 +907,26 @@ func (fx *fnExec) mergeSV(vs []SV, conds []Term, hint string) SV {
 			out[k] = fls[0][k]
 			continue
 		}
+		for i := range fls {
+			if fls[i][k].So != fls[0][k].So {
+				panic(vcErr("merge sort mismatch %s vs %s (%s)", fls[i][k].So, fls[0][k].So, hint))
+			}
+		}
+		if strings.HasPrefix(fls[0][k].So, "(Array") {
+			// arrays (heaps): a definitional ite avoids guarded array equalities, which drag the solver into extensionality
+			fx.nfresh++
+			name := fmt.Sprintf("%s!%d", san("m_"+hint), fx.nfresh)
+			body := fls[len(fls)-1][k]
+			for i := len(fls) - 2; i >= 0; i-- {
+				body = tIte(conds[i], fls[i][k], body)
+			}
+			fx.declared[name] = true
+			fx.decls = append(fx.decls, fmt.Sprintf("(define-fun %s () %s %s)", name, body.So, body.S))
+			out[k] = Term{name, body.So}
+			continue
+		}
 		c := fx.freshConst("m_"+hint, fls[0][k].So)
 		for i := range fls {
-			if fls[i][k].So != c.So {
-				panic(vcErr("merge sort mismatch %s vs %s (%s)", fls[i][k].So, c.So, hint))
-			}
 			fx.assumeG(conds[i], tEq(c, fls[i][k]))
 		}
 		out[k] = c
@@ -921,11 +960,34 @@ func (fx *fnExec) mergeStates(es []edge) *State {
 			}
 		}
 	}
-	n.defers = es[0].st.defers
-	for _, e := range es[1:] {
-		if len(e.st.defers) != len(n.defers) {
-			panic(vcErr("join of paths with different deferred calls"))
+	// deferred calls: union, each guarded by the paths on which its defer statement ran
+	var dorder []*ssa.Defer
+	dguard := map[*ssa.Defer][]Term{}
+	for _, e := range es {
+		for _, dr := range e.st.defers {
+			if _, ok := dguard[dr.d]; !ok {
+				dorder = append(dorder, dr.d)
+			}
+			dguard[dr.d] = append(dguard[dr.d], tAnd(e.cond, dr.guard))
 		}
+	}
+	for _, d := range dorder {
+		allPaths := len(dguard[d]) == len(es)
+		g := tOr(dguard[d]...)
+		if allPaths {
+			unconditional := true
+			for _, e := range es {
+				for _, dr := range e.st.defers {
+					if dr.d == d && dr.guard.S != "true" {
+						unconditional = false
+					}
+				}
+			}
+			if unconditional {
+				g = tTrue
+			}
+		}
+		n.defers = append(n.defers, deferRec{d, g})
 	}
 	// cells
 	keys := map[ssa.Value]bool{}
@@ -1038,6 +1100,14 @@ func (fx *fnExec) run() (err error) {
 			fx.vals[fv] = v
 		}
 	}
+	// declare the heaps of the types in the signature up front, so that frames and havocs name them
+	seenT := map[string]bool{}
+	for _, p := range fn.Params {
+		fx.touchType(p.Type(), seenT, 0)
+	}
+	for i := 0; i < fn.Signature.Results().Len(); i++ {
+		fx.touchType(fn.Signature.Results().At(i).Type(), seenT, 0)
+	}
 	// ghost variables
 	fx.initGhosts()
 	fx.recordReplayTerms()
@@ -1067,6 +1137,7 @@ func (fx *fnExec) run() (err error) {
 	fx.obls = append(fx.obls, &Obligation{Name: fx.name + "/vacuity:requires", Kind: "vacuity", Func: fx.name, Mode: fx.mode,
 		Prefix: len(fx.assumps), NDecl: -1, Goal: tFalse, Expect: "reach", fx: fx})
 
+	fx.checkFrame()
 	order := fx.blockOrder()
 	fx.inEdges = map[*ssa.BasicBlock][]edge{}
 	for _, b := range order {
@@ -1161,7 +1232,9 @@ func newModSet() *modSet {
 
 func (fx *fnExec) cutLoop(li *loopInfo) {
 	where := fx.pos(li.minPos)
+	li.pre = fx.st.clone()
 	env := fx.curEnv()
+	env.loopPre = li.pre
 	lname := fmt.Sprintf("loop%d", li.ordinal)
 	if li.spec != nil {
 		for k, c := range li.spec.Invs {
@@ -1176,6 +1249,7 @@ func (fx *fnExec) cutLoop(li *loopInfo) {
 	fx.havoc(ms, lname)
 	li.head = fx.st.clone()
 	env = fx.curEnv()
+	env.loopPre = li.pre
 	if li.spec != nil {
 		for _, c := range li.spec.Invs {
 			if !c.inMode(fx.mode) {
@@ -1203,6 +1277,7 @@ func (fx *fnExec) checkBackEdge(li *loopInfo, cond Term) {
 	where := fx.pos(li.minPos)
 	lname := fmt.Sprintf("loop%d", li.ordinal)
 	env := fx.curEnv()
+	env.loopPre = li.pre
 	saveR := fx.curR
 	fx.curR = cond
 	if li.spec != nil {
@@ -1274,6 +1349,12 @@ func (fx *fnExec) havoc(ms *modSet, hint string) {
 			fx.havocHeap(h)
 		}
 	}
+	for _, h := range fx.havocked {
+		if fx.refHeaps[h] {
+			fx.closure(fx.st.heaps[h], fx.alive(fx.st))
+		}
+	}
+	fx.havocked = nil
 	for _, g := range sortedKeys(ms.ghosts) {
 		if old, ok := fx.st.ghost[g]; ok {
 			fl := flatten(old)
@@ -1302,6 +1383,7 @@ func (fx *fnExec) havocHeap(name string) {
 		return
 	}
 	fx.st.heaps[name] = fx.freshConst("hv_"+name, so)
+	fx.havocked = append(fx.havocked, name)
 }
 
 func (fx *fnExec) finish() {
@@ -1410,4 +1492,105 @@ func sortedValues(m map[ssa.Value]bool) []ssa.Value {
 		return a.Pos() < b.Pos()
 	})
 	return ks
+}
+
+// checkFrame: a declared `modifies` clause must cover everything the body (transitively, through callee
+// contracts or bodies) may write.  Decided syntactically over the SSA.
+func (fx *fnExec) checkFrame() {
+	if fx.ctr == nil || !fx.ctr.ModSet {
+		return
+	}
+	ms := newModSet()
+	fx.v.inferMods(fx.fn, ms, map[*ssa.Function]bool{})
+	covered := func(p string) bool {
+		if p == "$alive" {
+			return true
+		}
+		pp := strings.TrimSuffix(p, "*")
+		for _, d := range fx.ctr.Modifies {
+			if d == "all" || d == p {
+				return true
+			}
+			if strings.HasSuffix(d, "*") && strings.HasPrefix(pp, strings.TrimSuffix(d, "*")) {
+				return true
+			}
+		}
+		return false
+	}
+	var bad []string
+	if ms.all {
+		bad = append(bad, "an unspecified callee may write anything")
+	}
+	for _, h := range sortedKeys(ms.heaps) {
+		if !covered(h) {
+			bad = append(bad, h)
+		}
+	}
+	for _, c := range sortedValues(ms.cells) {
+		if g, ok := c.(*ssa.Global); ok && !covered("global."+g.Name()) {
+			bad = append(bad, "global."+g.Name())
+		}
+	}
+	o := &Obligation{Name: fx.name + "/frame", Kind: "frame", Func: fx.name, Mode: fx.mode, Prefix: 0, Goal: tTrue,
+		Where: fx.ctr.Where, Src: "modifies " + strings.Join(fx.ctr.Modifies, ", "), fx: fx}
+	if len(bad) == 0 {
+		o.Verdict = "trivial"
+	} else {
+		o.Preset = "fail"
+		o.Model = "the body may write outside the declared frame: " + strings.Join(bad, ", ")
+	}
+	fx.obls = append(fx.obls, o)
+}
+
+// touchType declares (in the current state) the heaps that hold values of type t reachable through pointers and slices.
+func (fx *fnExec) touchType(t types.Type, seen map[string]bool, depth int) {
+	if depth > 3 {
+		return
+	}
+	defer func() {
+		if r := recover(); r != nil {
+			if _, ok := r.(vcError); !ok {
+				panic(r)
+			}
+		}
+	}()
+	switch u := t.Underlying().(type) {
+	case *types.Pointer:
+		et := u.Elem()
+		key := "F." + typeKey(et)
+		if seen[key] {
+			return
+		}
+		seen[key] = true
+		if _, isStruct := et.Underlying().(*types.Struct); !isStruct {
+			return
+		}
+		for _, l := range fx.leaves(et) {
+			if isRefLeaf(l) {
+				fx.refHeaps[key+l.suffix] = true
+			}
+			fx.heap(fx.st, key+l.suffix, fx.heapSortFor("F.", l))
+		}
+		st := et.Underlying().(*types.Struct)
+		for i := 0; i < st.NumFields(); i++ {
+			fx.touchType(st.Field(i).Type(), seen, depth+1)
+		}
+	case *types.Slice:
+		key := "E." + typeKey(u.Elem())
+		if seen[key] {
+			return
+		}
+		seen[key] = true
+		for _, l := range fx.leaves(u.Elem()) {
+			if isRefLeaf(l) {
+				fx.refHeaps[key+l.suffix] = true
+			}
+			fx.heap(fx.st, key+l.suffix, fx.heapSortFor("E.", l))
+		}
+		fx.touchType(u.Elem(), seen, depth+1)
+	case *types.Struct:
+		for i := 0; i < u.NumFields(); i++ {
+			fx.touchType(u.Field(i).Type(), seen, depth+1)
+		}
+	}
 }
